@@ -110,12 +110,22 @@ type c14case struct {
 	pollMu          sync.Mutex
 }
 
+var c14LogFirst bool
+
 var c14Ops = []string{"Helper", "Name", "Log", "Logf", "Failed", "Context", "Cleanup", "Failed", "Context", "Cleanup", "Error", "Errorf", "Fail"}
 
 // c14Prop builds the property; every call of it is one case on a fresh or reused T.
 func c14Prop(sc Scenario, cases *[]*c14case) func(t *rapid.T) {
 	return func(t *rapid.T) {
-		u := rapid.Uint64().Draw(t, "script")
+		var u uint64
+		if c14LogFirst {
+			// nothing touches this T before the goroutines do: their Log/Logf/Error calls are the first use of
+			// whatever the T sets up lazily for logging (the draw comes last)
+			u = mix(sc.Seed, uint64(len(*cases)))
+			defer func() { rapid.Uint64().Draw(t, "script") }()
+		} else {
+			u = rapid.Uint64().Draw(t, "script")
+		}
 		G := sc.N
 		cs := &c14case{liveDuring: true}
 		*cases = append(*cases, cs)
@@ -324,7 +334,8 @@ func c14Run(t *testing.T, sc Scenario, res *Result) {
 		if mix(sc.Seed, 0x106)%6 == 0 {
 			// -rapid.log: every T gets its own stdout logger; Log/Logf/Error/Errorf from goroutines go through it
 			setFlags(map[string]string{"rapid.log": "true"})
-			defer setFlags(nil)
+			c14LogFirst = true
+			defer func() { setFlags(nil); c14LogFirst = false }()
 			res.inc("rapid_log_scenarios")
 		}
 		for s := 0; s < 12; s++ {
